@@ -293,7 +293,8 @@ def gen_ops(rng, n, k):
 
 
 def gen_cps(rng, n):
-    ts = sorted(rng.sample(range(0, n + 1), rng.randint(0, min(3, n + 1))))
+    # insertion order is random: add_checkpoint has to keep the vector tick-sorted
+    ts = rng.sample(range(0, n + 1), rng.randint(0, min(4, n + 1)))
     return ",".join(f"{t}{rng.choice('LRC')}" for t in ts) or "-"
 
 
